@@ -57,4 +57,45 @@ def visibleLine (text : List Char) (k : Nat) : List Char := stripCr (stripNl (ro
 def shownLines (s : List Char) : Nat :=
   s.count '\n' + (if s = [] ∨ s.getLast? = some '\n' then 0 else 1)
 
+/-! ## lines as YAML counts them (LF, CRLF, lone CR)
+
+The parser — and therefore every reported `Location` — ends a line at a line feed, at a carriage
+return + line feed pair (one break) and at a carriage return that is not followed by a line feed. -/
+
+/-- the lines of a text under the YAML line-break rule, without their line breaks. A text that ends
+with a line break has the empty line after it as its last line (end-of-input locations are reported
+there); the empty text is one empty line. -/
+def yamlLines : List Char → List (List Char)
+  | [] => [[]]
+  | c :: cs =>
+    if c = '\n' then [] :: yamlLines cs                                  -- LF (alone, or closing a CRLF pair)
+    else if c = '\r' then
+      if cs.head? = some '\n' then yamlLines cs                          -- the CR of a CRLF pair: part of that break
+      else [] :: yamlLines cs                                             -- a lone CR ends the line
+    else match yamlLines cs with
+      | l :: ls => (c :: l) :: ls                                         -- any other character belongs to the line
+      | [] => [[c]]
+
+/-- line `k` (1-based) of a text under the YAML rule; `none` when the text has no such line -/
+def yamlLine (text : List Char) (k : Nat) : Option (List Char) :=
+  if k = 0 then none else (yamlLines text)[k - 1]?
+
+/-- `(line, column)` is a position of the text under the YAML rule: an existing line, and a column on one
+of its characters or right after its last character (where end-of-line / end-of-input is reported) -/
+def IsYamlPosition (text : List Char) (line column : Nat) : Prop :=
+  ∃ l, yamlLine text line = some l ∧ 1 ≤ column ∧ column ≤ l.length + 1
+
+/-- number of YAML line breaks of a text -/
+def yamlBreaks (text : List Char) : Nat := (yamlLines text).length - 1
+
+/-- byte view (the reader's ring of recent bytes works on raw bytes): byte `i` of a byte stream ends a
+line under the YAML rule when it is a line feed, or a carriage return that is not followed by a line
+feed -/
+def endsLineAt (s : List Nat) (i : Nat) : Bool :=
+  s[i]? == some 0x0A || (s[i]? == some 0x0D && s[i + 1]? != some 0x0A)
+
+/-- number of lines of the byte stream that end within its first `n` bytes; byte `n` lies on line
+`1 + linesEndedBefore s n` -/
+def linesEndedBefore (s : List Nat) (n : Nat) : Nat := (List.range n).countP (endsLineAt s)
+
 end SaphyrVerif.Spec.Snippet
